@@ -126,6 +126,9 @@ pub trait MessageClient {
 pub enum Timeout {
     None,
     Default,
+    /// the default worker timeout, restarted each time a request is scattered or a
+    /// worker answers: for tasks that send a whole series of requests to each worker
+    DefaultPerAnswer,
     #[allow(unused)]
     Custom(Duration),
 }
@@ -135,6 +138,8 @@ pub enum Timeout {
 struct TaskContainer {
     job: Box<dyn GatheringTask>,
     timeout: Option<Instant>,
+    /// if set, `timeout` is pushed back to this long after each scatter and each answer
+    renew_timeout: Option<Duration>,
 }
 
 /// Default strategy when gathering responses from workers
@@ -662,6 +667,10 @@ impl CommandHub {
             self.server.in_flight.remove(&response.id);
         }
 
+        if let Some(duration) = task.renew_timeout {
+            task.timeout = Some(Instant::now() + duration);
+        }
+
         let client = &mut task
             .job
             .client_token()
@@ -1109,14 +1118,28 @@ impl Server {
             "new_task must allocate a fresh, unused task id"
         );
         let queued_before = self.queued_tasks.len();
+        let renew_timeout = match timeout {
+            Timeout::DefaultPerAnswer => {
+                Some(Duration::from_secs(self.config.worker_timeout as u64))
+            }
+            _ => None,
+        };
         let timeout = match timeout {
             Timeout::None => None,
-            Timeout::Default => Some(Duration::from_secs(self.config.worker_timeout as u64)),
+            Timeout::Default | Timeout::DefaultPerAnswer => {
+                Some(Duration::from_secs(self.config.worker_timeout as u64))
+            }
             Timeout::Custom(duration) => Some(duration),
         }
         .map(|duration| Instant::now() + duration);
-        self.queued_tasks
-            .insert(task_id, TaskContainer { job, timeout });
+        self.queued_tasks.insert(
+            task_id,
+            TaskContainer {
+                job,
+                timeout,
+                renew_timeout,
+            },
+        );
         // INVARIANT: exactly one task was queued, retrievable by the id we
         // return — the caller (`scatter`/`scatter_on`) immediately looks it
         // up by this id.
@@ -1191,6 +1214,9 @@ impl Server {
             self.in_flight.insert(worker_request.id, task_id);
         }
         task.job.get_gatherer().inc_expected_responses(worker_count);
+        if let Some(duration) = task.renew_timeout {
+            task.timeout = Some(Instant::now() + duration);
+        }
 
         // INVARIANT: every worker we scattered to within this call has a
         // distinct request id (the id embeds the unique worker id, plus the
